@@ -191,6 +191,18 @@ class C16(Prop):
                 return None
         return visited
 
+    @staticmethod
+    def _dup_issues(evs):
+        """Issues reporting a repeated location: recognised by what they are about - a location that has already been
+        read - not by the wording of the message."""
+        seen, out = set(), []
+        for e in evs:
+            if e[0] in ("open", "list"):
+                seen.add(os.path.normpath(e[1]))
+            elif e[0] == "issue" and e[2] and os.path.normpath(e[2]) in seen:
+                out.append(e)
+        return out
+
     # ---- oracle: the statement, on the implementation's behaviour ----
     def oracle(self, case, obs):
         fails = []
@@ -257,7 +269,7 @@ class C16(Prop):
             if cfg["allow_include"] and any(y[1] == "DIRECTIVE" and y[3] == "include" for y in ys):
                 fails.append("include-yielded: an include directive was yielded although includes are honoured")
         # repeated locations are reported
-        dups = [e for e in evs if e[0] == "issue" and "multiple times" in e[1]]
+        dups = self._dup_issues(evs)
         for d in dups:
             if d[2] is None:
                 fails.append("dup-location: repeated-location issue without a location")
@@ -273,6 +285,7 @@ class C16(Prop):
         nodes = [(p, k, pl) for p, k, pl in obs["nodes"]]
         cfg = case["cfg"]
         evs = []
+        dup_issues = self._dup_issues(obs["events"])
         for e in obs["events"]:
             if e[0] in ("open", "list"):
                 if not (e[1].startswith(os.path.dirname(base)) or e[1] == "/"):
@@ -290,7 +303,7 @@ class C16(Prop):
                 else:
                     code = 901
                 evs.append(f"OYield {L.g_path(e[2])} {g_nat(code)}")
-            elif e[0] == "issue" and "multiple times" in e[1] and e[2]:
+            elif e[0] == "issue" and e[2] and any(e is d for d in dup_issues):
                 evs.append("ODup " + L.g_path(e[2]))
         if obs["code"] == 3 and "FileNotFoundError" not in (obs["exc"] or ""):
             return None
